@@ -154,6 +154,15 @@ def file_cases(chk, zs, thorough, per_zoo_cap=None, large=False, zoos=None):
         for n in (200, 700):
             rs = [g.record(z.nodes) for _ in range(n)]
             out.append((z, 100000, (n // 100) % 3 if name != "deep" else 0, [("a", r) for r in rs] + [("w",), ("c",)], "wide-levels"))
+    # a run of more than 8192 equal levels (three-byte RLE header) FOLLOWED by other levels in the same page
+    z = zs.get("three") if large else None
+    if z is not None:
+        rs = []
+        for i in range(8300):
+            late = i >= 8210
+            rs.append(("struct", [("leaf", zoolib.le(i, 8)), ("some", ("leaf", b"v%d" % i)) if (late and i % 2) else ("nil",),
+                                  ("list", [("leaf", zoolib.le(i, 4))] * (i % 3) if late else [])]))
+        out.append((z, 100000, 0, [("a", r) for r in rs] + [("w",), ("c",)], "long-run-then-change"))
     # more than 255 pages in one column chunk, and more than 255 row groups (counters narrower than int)
     z = zs.get("three") if large else None
     if z is not None:
